@@ -37,6 +37,10 @@ def gen_cases(tier, seed):
     for i in range(6):
         yield "bitflips", {"which": i, "follow": False}
         yield "bitflips", {"which": i, "follow": True}
+    # the cross product faults x schedules for the header fields: every magic/length/checksum bit flip under first chunks of 1..5 and 23 bytes
+    for i in range(6):
+        for first in (1, 2, 3, 4, 5, 23):
+            yield "bitflips", {"which": i, "follow": i % 2 == 0, "first": first, "header_only": True}
     for i in range(6):
         yield "eof", {"which": i, "n": 1}
         yield "eof", {"which": i, "n": 2}
@@ -59,7 +63,7 @@ def gen_cases(tier, seed):
 def required(tier):
     return {"set:hdr_transitions": 300, "set:payload_transitions": 500, "frag.messages": 1500, "frag.multi_message_streams": 150,
             "flip.decided": 1500, "flip.field.magic": 150, "flip.field.command": 500, "flip.field.length": 150, "flip.field.checksum": 150,
-            "flip.field.payload": 100, "flip.expected_accept": 100, "eof.offsets": 200, "magic.decided": 6, "cmd.decided": 150,
+            "flip.field.payload": 100, "flip.expected_accept": 100, "flip.fragmented": 2000, "eof.offsets": 200, "magic.decided": 6, "cmd.decided": 150,
             "codec.version": 30, "codec.version.relay_false": 5, "codec.getheaders": 7, "codec.inv": 6, "codec.addr": 6, "codec.ping": 5}
 
 
@@ -188,18 +192,23 @@ def run_case(kind, params, ctx):
         cmd, payload = small_messages()[params["which"]]
         good = rp.frame(MAG, cmd, payload)
         follow = rp.frame(MAG, b"pong", b"\x01" * 8) if params["follow"] else b""
-        for bit in range(len(good) * 8):
+        nbits = 24 * 8 if params.get("header_only") else len(good) * 8
+        for bit in range(nbits):
+            if params.get("header_only") and 32 <= bit < 128:
+                continue                      # command field: covered by the unfragmented sweep
             bad = bytearray(good)
             bad[bit // 8] ^= 1 << (bit % 8)
             stream = bytes(bad) + follow
             byte = bit // 8
             field = "magic" if byte < 4 else ("command" if byte < 16 else ("length" if byte < 20 else ("checksum" if byte < 24 else "payload")))
             exp = rp.receive(stream, 0, MAG)
-            sock = ScriptSock(stream, [], tail="max")
+            sock = ScriptSock(stream, [params["first"]] if params.get("first") else [], tail="max")
             st, out = _recv(ctx, sock, field)
             ctx.count("flip.decided")
+            if params.get("first"):
+                ctx.count("flip.fragmented")
             ctx.count(f"flip.field.{field}")
-            ctx.seen("flip", (params["which"], params["follow"], bit))
+            ctx.seen("flip", (params["which"], params["follow"], bit, params.get("first", 0)))
             if exp[0] == "ok":
                 ctx.count("flip.expected_accept")
                 if st != "ok":
